@@ -123,6 +123,8 @@ def make_replay(prop, oid, details, repo, tier, unit_results, kx_res):
         rec['engine'] = 'KX'
         rec['harness'] = h['name']
         rec['crate'] = desc['crate']
+        if os.environ.get('VERIF_NO_PLAYBACK'):
+            _PB_CACHE[h['name']] = {'found': False, 'note': 'playback skipped (VERIF_NO_PLAYBACK set)'}
         if h['name'] not in _PB_CACHE:
             _PB_CACHE[h['name']] = kx_playback(repo, desc, h)
         pb = _PB_CACHE[h['name']]
